@@ -5,6 +5,7 @@
 pub mod chain;
 
 use chain::*;
+use cosmwasm_std::Api;
 use cosmwasm_std::{
     coins, to_json_binary, to_json_vec, Addr, Binary, Coin, IbcAcknowledgement, IbcChannel, IbcChannelConnectMsg, IbcEndpoint,
     IbcOrder, IbcPacket, IbcPacketAckMsg, IbcPacketReceiveMsg, IbcPacketTimeoutMsg, IbcTimeout, Uint128, WasmMsg,
@@ -331,8 +332,11 @@ struct World {
 fn chan_id(i: usize) -> String {
     format!("channel-{i}")
 }
+/// Counterparty channel ids deliberately collide with our own local ids (channel ids are per-chain
+/// counters, so "channel-1" on the other side next to a local "channel-1" is the normal situation):
+/// local channel-0 <-> remote channel-1, channel-1 <-> channel-2, channel-2 <-> channel-0.
 fn remote_chan_id(i: usize) -> String {
-    format!("channel-{i}9")
+    format!("channel-{}", (i + 1) % 3)
 }
 const REMOTE_PORT: &str = "transfer";
 
@@ -560,6 +564,7 @@ pub fn run_case(prop: &str, case: &Case, ctx: &mut CaseCtx) -> Result<(), Violat
 
     for (step_no, op) in case.ops.iter().enumerate() {
         let block_time = w.app.block_info().time;
+        let mut outside_gain: Option<u128> = None;
         let unfinished: Vec<usize> = pkts.iter().enumerate().filter(|(_, p)| p.state != PState::Done).map(|(i, _)| i).collect();
         let done: Done = match op {
             Op::Advance { secs } => {
@@ -675,9 +680,35 @@ pub fn run_case(prop: &str, case: &Case, ctx: &mut CaseCtx) -> Result<(), Violat
             Op::RecvRaw { ch, bytes } => {
                 let chx = *ch as usize % n_ch;
                 seq += 1;
+                // if the bytes happen to be a well-formed ICS-20 packet, interpret it like a structured one
+                let parsed: Option<WirePacket> = cosmwasm_std::from_json::<WirePacket>(bytes.as_slice()).ok();
+                let (tok, form, amount, receiver) = match &parsed {
+                    Some(wp) => {
+                        let parts: Vec<&str> = wp.denom.splitn(3, '/').collect();
+                        let right = parts.len() == 3 && parts[0] == REMOTE_PORT && parts[1] == remote_chan_id(chx);
+                        let base = if parts.len() == 3 { parts[2] } else { wp.denom.as_str() };
+                        let tok = (0..N_TOK).find(|t| w.local_denom(*t) == base);
+                        let rcv = w.users.iter().position(|u| u.as_str() == wp.receiver);
+                        (tok, Some(if right { DenomForm::Right } else { DenomForm::Bare }), wp.amount.u128(), rcv)
+                    }
+                    None => (None, None, 0, None),
+                };
+                // a valid receiver outside the user pool: watch its balance directly
+                let extra: Option<(Addr, usize, u128)> = match (&parsed, tok, receiver) {
+                    (Some(wp), Some(t), None) if w.app.api().addr_validate(&wp.receiver).is_ok() => {
+                        let a = Addr::unchecked(wp.receiver.clone());
+                        let b = w.balance(&a, t).unwrap_or(0);
+                        Some((a, t, b))
+                    }
+                    _ => None,
+                };
                 let packet = IbcPacket::new(Binary::from(bytes.clone()), IbcEndpoint { port_id: REMOTE_PORT.into(), channel_id: remote_chan_id(chx) }, IbcEndpoint { port_id: w.port(), channel_id: chan_id(chx) }, seq, IbcTimeout::with_timestamp(block_time.plus_seconds(600)));
                 let r = try_sudo(&mut w.app, &w.ics20.clone(), &Shim::Receive { msg: IbcPacketReceiveMsg::new(packet, w.relayer.clone()) });
-                Done::Recv { ch: chx, tok: None, form: None, amount: 0, receiver: None, result: r.map(|x| x.data), injected: false }
+                if let Some((a, t, before)) = extra {
+                    let after = w.balance(&a, t).unwrap_or(0);
+                    outside_gain = Some(after.saturating_sub(before));
+                }
+                Done::Recv { ch: chx, tok, form, amount, receiver, result: r.map(|x| x.data), injected: false }
             }
             Op::Ack { pkt, .. } | Op::Timeout { pkt, .. } => {
                 if unfinished.is_empty() {
@@ -858,12 +889,12 @@ pub fn run_case(prop: &str, case: &Case, ctx: &mut CaseCtx) -> Result<(), Violat
                     let base = w.local_denom(*tok);
                     let out_pre = World::outstanding(&pre, *ch, &base);
                     let out_post = World::outstanding(&post, *ch, &base);
-                    let gained = receiver.map(|r| post.users[r][*tok].saturating_sub(pre.users[r][*tok])).unwrap_or(0);
+                    let gained = receiver.map(|r| post.users[r][*tok].saturating_sub(pre.users[r][*tok])).or(outside_gain).unwrap_or(0);
                     if prop == "C11" && (!matches!(form, DenomForm::Right) || *amount > out_pre) {
                         return Err(v(prop, "foreign-or-excess-packet-released", format!("{at}: packet with denom form {:?} and amount {amount} (channel outstanding {out_pre}) got a success acknowledgement", form)));
                     }
                     if prop == "C12" {
-                        if gained != *amount || receiver.is_none() {
+                        if gained != *amount || (receiver.is_none() && outside_gain.is_none()) {
                             return Err(v(prop, "success-ack-without-full-payout", format!("{at}: success acknowledgement but the receiver gained {gained} of {amount}")));
                         }
                         if out_pre.checked_sub(*amount) != Some(out_post) {
@@ -1155,6 +1186,39 @@ fn check_state(prop: &str, w: &World, o: &Obs, sent: &[[u128; N_TOK]], failed: &
     Ok(())
 }
 
+/// fixed small state + one incoming packet with arbitrary data bytes (fuzz target `ics20_packet_bytes`):
+/// two channels, native and cw20 tokens outstanding, then the raw packet on channel 0
+pub fn raw_packet_case(bytes: &[u8]) -> Case {
+    Case {
+        channels: 2,
+        allow: vec![(0, None), (1, Some(500_000))],
+        default_gas: None,
+        legacy: None,
+        malicious: false,
+        ops: vec![
+            Op::SendNative { by: 0, ch: 0, denom: 0, amt: SendAmt::Abs(1000), timeout: None, memo: None },
+            Op::SendCw20 { by: 1, ch: 0, tok: 0, amt: SendAmt::Abs(700), timeout: Some(50), memo: Some("m".into()) },
+            Op::SendNative { by: 2, ch: 1, denom: 0, amt: SendAmt::Abs(300), timeout: None, memo: None },
+            Op::Ack { pkt: 0, ok: true, refund_fails: false },
+            Op::Ack { pkt: 0, ok: true, refund_fails: false },
+            Op::RecvRaw { ch: 0, bytes: bytes.to_vec() },
+            Op::RecvRaw { ch: 0, bytes: bytes.to_vec() },
+        ],
+    }
+}
+
+/// seed inputs for the raw-packet target: well-formed packets for the fixed state above
+pub fn raw_packet_seeds() -> Vec<Vec<u8>> {
+    let app = new_app();
+    let user0 = app.api().addr_make("user0").to_string();
+    let mut out = vec![];
+    for (denom, amount) in [("transfer/channel-1/uatom", "100"), ("transfer/channel-1/uatom", "1000"), ("transfer/channel-1/uatom", "1001"), ("uatom", "5"), ("transfer/channel-2/uatom", "5"), ("transfer/channel-1/cw20:unknown", "1")] {
+        out.push(format!(r#"{{"amount":"{amount}","denom":"{denom}","receiver":"{user0}","sender":"remote"}}"#).into_bytes());
+    }
+    out.push(br#"{"amount":"1","denom":"transfer/channel-1/uatom","receiver":"x","sender":"remote","memo":"hi"}"#.to_vec());
+    out
+}
+
 // ------------------------------------------------------------------ family
 
 pub struct Ics20Family;
@@ -1184,4 +1248,111 @@ impl Family for Ics20Family {
     fn run(&self, prop: &str, case: &Case, ctx: &mut CaseCtx) -> Result<(), Violation> {
         run_case(prop, case, ctx)
     }
+    fn decode(&self, prop: &str, u: &mut arbitrary::Unstructured) -> Option<Case> {
+        Some(decode_case(prop, u))
+    }
+}
+
+// ------------------------------------------------------------------ byte decoder (fuzz front-end)
+
+pub fn decode_case(prop: &str, u: &mut arbitrary::Unstructured) -> Case {
+    use vcore::amounts::{arb_below, arb_bool};
+    let d_gas = |u: &mut arbitrary::Unstructured| -> Option<u64> {
+        match arb_below(u, 8) {
+            0 | 1 => None,
+            2 => Some(0),
+            7 => Some(u64::MAX),
+            _ => Some(1 + u.arbitrary::<u32>().unwrap_or(0) as u64 % 1_000_000),
+        }
+    };
+    let malicious = match prop {
+        "C11" => true,
+        "C12" => false,
+        _ => arb_bool(u, 1, 2),
+    };
+    let legacy = if prop == "C12" && arb_bool(u, 3, 10) {
+        let n = 1 + arb_below(u, 3);
+        let tokens = (0..n)
+            .map(|_| {
+                let k = arb_below(u, 3);
+                (arb_below(u, N_TOK) as u8, u.arbitrary::<u16>().unwrap_or(0) as u64 % 3000, (0..k).map(|_| 1 + u.arbitrary::<u16>().unwrap_or(0) as u32 % 500).collect())
+            })
+            .collect();
+        Some(Legacy { version: arb_below(u, 3) as u8, tokens, listed: (0..N_CW20).map(|_| arb_bool(u, 1, 2)).collect(), migrate_default_gas: d_gas(u) })
+    } else {
+        None
+    };
+    let channels = if legacy.is_some() { 1 } else { 1 + arb_below(u, 3) as u8 };
+    let n_allow = arb_below(u, 4);
+    let allow = (0..n_allow).map(|_| (arb_below(u, N_CW20) as u8, d_gas(u))).collect();
+    let default_gas = d_gas(u);
+    let d_send_amt = |u: &mut arbitrary::Unstructured| -> SendAmt {
+        match arb_below(u, 12) {
+            0 => SendAmt::Abs(0),
+            1 => SendAmt::Abs(u64::MAX as u128),
+            2 => SendAmt::Abs(u64::MAX as u128 + 1),
+            3 => SendAmt::Frac(u.arbitrary().unwrap_or(0)),
+            _ => SendAmt::Abs(1 + u.arbitrary::<u16>().unwrap_or(0) as u128 % 2000),
+        }
+    };
+    let d_memo = |u: &mut arbitrary::Unstructured| -> Option<String> {
+        match arb_below(u, 4) {
+            0 | 1 => None,
+            2 => Some(String::new()),
+            _ => Some(format!("m{}", u.arbitrary::<u8>().unwrap_or(0))),
+        }
+    };
+    let d_who = |u: &mut arbitrary::Unstructured| -> Who {
+        match arb_below(u, 4) {
+            0 | 1 => Who::Gov,
+            2 => Who::Former(arb_below(u, 3) as u8),
+            _ => Who::User(arb_below(u, N_USERS) as u8),
+        }
+    };
+    let n_ops = arb_below(u, 44);
+    let mut ops = vec![];
+    for _ in 0..n_ops {
+        let ch = if arb_bool(u, 1, 16) { 3 } else { arb_below(u, 3) as u8 };
+        let timeout = if arb_bool(u, 2, 5) { Some(1 + u.arbitrary::<u16>().unwrap_or(0) as u32 % 5000) } else { None };
+        let op = match arb_below(u, 16) {
+            0 | 1 => Op::SendNative { by: arb_below(u, N_USERS) as u8, ch, denom: arb_below(u, N_NATIVE) as u8, amt: d_send_amt(u), timeout, memo: d_memo(u) },
+            2 | 3 => Op::SendCw20 { by: arb_below(u, N_USERS) as u8, ch, tok: arb_below(u, N_CW20) as u8, amt: d_send_amt(u), timeout, memo: d_memo(u) },
+            4 => Op::Deliver { pkt: u.arbitrary().unwrap_or(0) },
+            5..=8 => {
+                let form = if malicious {
+                    match arb_below(u, 10) {
+                        0..=4 => DenomForm::Right,
+                        5 => DenomForm::Bare,
+                        6 => DenomForm::WrongPort,
+                        7 => DenomForm::WrongChannel,
+                        8 => DenomForm::OtherChannel(arb_below(u, 3) as u8),
+                        _ => if arb_bool(u, 1, 2) { DenomForm::Nested } else { DenomForm::UnknownBase },
+                    }
+                } else if arb_bool(u, 1, 12) {
+                    DenomForm::Bare
+                } else {
+                    DenomForm::Right
+                };
+                let amt = match arb_below(u, 6) {
+                    0 => RecvAmt::Abs(u.arbitrary::<u16>().unwrap_or(0) as u128 % 2000),
+                    1 | 2 => RecvAmt::Outstanding(arb_below(u, 5) as i8 - 2),
+                    3 => RecvAmt::RemoteHeld(arb_below(u, 2) as i8 - 1),
+                    4 => RecvAmt::Frac(u.arbitrary().unwrap_or(0)),
+                    _ => if malicious { RecvAmt::Abs(vcore::amounts::arb_u128(u)) } else { RecvAmt::Frac(255) },
+                };
+                Op::Recv { ch: arb_below(u, 3) as u8, tok: arb_below(u, N_TOK) as u8, live: if arb_bool(u, 4, 5) { Some(u.arbitrary().unwrap_or(0)) } else { None }, form, amt, receiver: if arb_bool(u, 1, 13) { N_USERS as u8 } else { arb_below(u, N_USERS) as u8 }, payout_fails: arb_bool(u, 1, 5), memo: arb_bool(u, 1, 5) }
+            }
+            9 => {
+                let n = arb_below(u, 40);
+                Op::RecvRaw { ch: arb_below(u, 3) as u8, bytes: (0..n).map(|_| u.arbitrary().unwrap_or(0)).collect() }
+            }
+            10 | 11 => Op::Ack { pkt: u.arbitrary().unwrap_or(0), ok: arb_bool(u, 3, 5), refund_fails: arb_bool(u, 1, 4) },
+            12 => Op::Timeout { pkt: u.arbitrary().unwrap_or(0), refund_fails: arb_bool(u, 1, 4) },
+            13 => Op::Allow { by: d_who(u), tok: arb_below(u, N_CW20) as u8, gas: d_gas(u) },
+            14 => if arb_bool(u, 1, 2) { Op::UpdateAdmin { by: d_who(u), to: arb_below(u, 3) as u8 } } else { Op::Migrate { default_gas: d_gas(u) } },
+            _ => Op::Advance { secs: u.arbitrary::<u16>().unwrap_or(0) % 3000 },
+        };
+        ops.push(op);
+    }
+    Case { channels, allow, default_gas, legacy, malicious, ops }
 }
